@@ -308,6 +308,50 @@ def handle (req : Json) : Except String Json := do
             return .record [("value", a.value), ("parsed", .list r)]
       return Json.mkObj [("model", resJson Val.toJson m)]
     | _ => throw s!"C07 model: unknown call {call}"
+  | "pair" =>
+    -- both generations present: `DWARFInfo.location_lists()` / `range_lists()` hand out a pair object
+    let what ← jStr req "what"
+    let loc := what == "loc"
+    let le ← jBool req "le"; let asz ← jNat req "asz"
+    let d4 ← jHex req "hex4"; let d5 ← jHex req "hex5"
+    let secs ← secsOf req
+    let S ← structsFor le 32 asz 2
+    let env := dwarfEnv S
+    let cus ← match req.getObjVal? "cus" with
+      | .ok (.arr cs) => cs.toList.mapM (cuOfJson le)
+      | _ => pure []
+    let cu : Option Lists.Cu := match (jNat req "cuidx").toOption with
+      | some i => cus[i]?
+      | none => none
+    let call ← jStr req "call"
+    match Lists.listsFactory S asz (some d4) (some d5) with
+    | .pair p =>
+      match call with
+      | "at" =>
+        let off ← jInt req "off"
+        let m := if loc then Lists.pairGetLocationListAtOffset env secs p off cu
+                 else Lists.pairGetRangeListAtOffset env secs p off cu
+        return Json.mkObj [("model", resJson valsJ m)]
+      | "at_ex" =>
+        let off ← jInt req "off"
+        return Json.mkObj [("model", resJson Val.toJson (Lists.pairGetRangeListAtOffsetEx env p off))]
+      | "at_ex_tr" =>
+        let off ← jInt req "off"
+        let m : R (List Val) := do
+          let v ← Lists.pairGetRangeListAtOffsetEx env p off
+          Lists.mapEntries (Lists.pairTranslateV5Entry env secs cu) v
+        return Json.mkObj [("model", resJson valsJ m)]
+      | "iter" =>
+        return Json.mkObj [("model", resJson listsJ (if loc then Lists.pairIterLocationLists else Lists.pairIterRangeLists))]
+      | "iter_cus" =>
+        return Json.mkObj [("model", resJson valsJ (if loc then Lists.pairLocIterCUs else Lists.pairRngIterCUs env p cus))]
+      | "iter_cus_ex" =>
+        let m : R (List (List Val)) := do
+          let hs ← Lists.pairRngIterCUs env p cus
+          hs.mapM fun h => Lists.pairIterCURangeListsEx env p h
+        return Json.mkObj [("model", resJson listsJ m)]
+      | _ => throw s!"C07 pair: unknown call {call}"
+    | _ => throw "C07 pair: the factory did not return a pair"
   | "cls" =>
     let name ← jStr req "name"; let form ← jStr req "form"; let ver ← jNat req "ver"
     let cj : LocClass → Json
